@@ -79,6 +79,8 @@ def run_shard(shard, ctx, tier):
             for rest in itertools.product(alpha, repeat=max(n - 1, 0)):
                 lst = ([f] if f is not None else []) + list(rest)
                 guarded_check(mod, {'boxes': lst, 'skew': 0}, ctx)
+                if n == 2 and lst[0] % 5 == 0:
+                    guarded_check(mod, {'boxes': lst, 'skew': 0, 'gray': 1}, ctx)      # single-channel page image
                 if n == 2:
                     for sk in (1, 2):
                         guarded_check(mod, {'boxes': lst, 'skew': sk}, ctx)
@@ -137,7 +139,7 @@ def same_ring(a, b, tol):
     return False
 
 
-def run_sorter(name, param, page, ctx):
+def run_sorter(name, param, page, ctx, gray=False):
     import configparser
     from pero_ocr.layout_engines.smart_sorter import SmartRegionSorter
     from pero_ocr.layout_engines.naive_sorter import NaiveRegionSorter
@@ -148,7 +150,7 @@ def run_sorter(name, param, page, ctx):
     else:
         cfg['S'] = {'ImageWidthDenominator': str(param)}
         sorter = NaiveRegionSorter(cfg['S'])
-    img = np.zeros((100, 1000, 3), dtype=np.uint8)
+    img = np.zeros((100, 1000, 3), dtype=np.uint8) if not gray else np.zeros((100, 1000), dtype=np.uint8)
     old = sys.getrecursionlimit()
     sys.setrecursionlimit(400)
     try:
@@ -170,7 +172,7 @@ def check_case(case, ctx):
         polygons = [POLYS[i] for i in case['polys']]
         what = f'polygons {polygons}'
     skew = SKEWS[case['skew']]
-    ctx.state((what, skew, case.get('lv', 0)))
+    ctx.state((what, skew, case.get('lv', 0), case.get('gray', 0)))
     configs = [('smart', p) for p in INTERSECT] + [('naive', d) for d in DENOMS]
     if 'cfg' in case:
         configs = [tuple(case['cfg'])]
@@ -181,7 +183,7 @@ def check_case(case, ctx):
         before = snapshot(page)
         desc = f'{name} sorter (parameter {param}), {what}, line skew {skew} deg, lines per region {LINE_COUNTS[case.get("lv", 0)][:len(polygons)]}'
         try:
-            out = run_sorter(name, param, page, ctx)
+            out = run_sorter(name, param, page, ctx, gray=bool(case.get('gray')))
         except CaseTimeout:
             ctx.violation('terminates', f'{K}/does-not-terminate', f'{desc}: no result within 5 s', sub)
             continue
